@@ -22,6 +22,16 @@ CLAIMED = {
    text="Seeded crash points (before/after Next in any middleware, main handler, custom fallback handlers, OnError hook; string/error/runtime/ErrAbortHandler values), hook present or absent and five hook behaviours; oracle: containment, hook ran once with the value, nothing later ran, single commit with the hook's status/body (commit model continued through the hook), unchanged propagation without hook; every request in flight at or started after a panic must equal the same request on a fresh router. Sampling, not enumeration.",
    note="handlers.PanicsHandler (in-chain recovery) is not part of the statement and not exercised. What OnError does after a recovered panic is not asserted.",
    ref="DESIGN.md §4.6"),
+ "C07": dict(
+   technique="deterministic simulation with cache-loss fault injection: seeded request histories on a tiny-capacity caching router vs a non-caching twin, sequentially and under the seeded scheduler",
+   text="Seeded histories (5-60 steps over a pool of 3-8 requests, so hits, misses and evictions occur; HEAD fallbacks, 405 probes, Router.Match steps) on caching routers with capacity 0-4 or 1000, compared step by step with a twin built from the same program without caching; concurrent profiles compare each request with the non-caching twin's answer for that request alone; fault profiles delete entries or flush the cache between any two scheduler steps (also between a lookup and the store that follows). Sampling, not enumeration.",
+   note="Route pointer identity is deliberately not compared (a hit returns a copy). Handlers treat Params as read-only, as the statement assumes. The twin shares all of rux except the cache, so a routing defect common to both (C01) cannot raise an alarm here.",
+   ref="DESIGN.md §4.4"),
+ "C10": dict(
+   technique="deterministic simulation: seeded request histories with context-dirtying handler scripts, simulated pool with adversarial reuse policy (dirtiest-first / LIFO / FIFO / random), fresh-router twin per request",
+   text="Seeded histories of 4-30 requests (static, dynamic, 404, 405, aborted, erroring, panicking, writer/request-swapping, re-dispatching through HandleContext) where the simulated pool hands the dirtiest free context to the next request; every handler's observation of the context and the whole outcome must equal those of the same request as first request on a fresh identical router; the pool checks that no context is released twice. Sampling, not enumeration.",
+   note="Reuse is real and measured by object identity. Observations use the public Context API only (Params, Data(), Errors, IsAborted, StatusCode, Length, Req, RawWriter, Resp type).",
+   ref="DESIGN.md §4.7"),
 }
 
 NA = {
@@ -37,7 +47,7 @@ NA = {
  "C19": "pure encoders over values and headers.",
  "C20": "pure functions of headers, method and wrapper list.",
 }
-PENDING = {k: "check not yet built at this commit (claimed in DESIGN.md §4; under construction)" for k in ["C04","C05","C07","C10","C14","C16"]}
+PENDING = {k: "check not yet built at this commit (claimed in DESIGN.md §4; under construction)" for k in ["C04","C05","C14","C16"]}
 
 def main():
     checks = []
